@@ -9,6 +9,9 @@
 //        xss_drv ent  <maxv> <ctx> <shard> <nshards> <rid>...           every "&" w ";" over the character classes a lenient
 //                     number parser might swallow: w = "#" v with |v| <= maxv, and w without leading "#" with |w| <= maxv-1;
 //                     ctx 0: in text position (x&w;y), ctx 1: inside an attribute value (<b t="&w;"/>)
+//        xss_drv eng  <level> 0 <shard> <nshards> <rid>...             engine rule sets (rid >= 2000): values that are one
+//                     forbidden character away from the language of an expression with nested quantifiers (lengths 48, 200,
+//                     2000) or that carry invalid UTF-8 under a regex::utf8 expression; level 0 = quick subset
 //        xss_drv enc  <pairstep> <ctx> <shard> <nshards>                every charset name the code can be configured with
 //                     x every byte 00..FF embedded in harmless text (ctx 1: also inside <b>..</b>); multi-byte charsets:
 //                     every <pairstep>-th pair (lead >= 0x80, any second byte); expected bits from iconv(3)
@@ -32,7 +35,8 @@ struct attr_d {
 	std::vector<std::string> sch;           // allowed schemes
 	std::string set; int min;               // cset
 	std::vector<std::string> alts;          // alts
-	std::string regex;                      // source expression for cset / alts / opq / scheme
+	std::string regex;                      // source expression for cset / alts / opq / (uri: scheme expression, if not empty)
+	int flags;                              // booster::regex flags of the expression (regex::utf8 ...)
 	int id;
 };
 struct tag_d { std::string name; int kind; };
@@ -52,7 +56,7 @@ static std::string alt_regex(std::vector<std::string> const &v) { std::string s=
 
 static attr_d mk(std::string tag,std::string name,std::string type,int id)
 {
-	attr_d a; a.tag=tag; a.name=name; a.type=type; a.min=0; a.id=id; return a;
+	attr_d a; a.tag=tag; a.name=name; a.type=type; a.min=0; a.flags=0; a.id=id; return a;
 }
 static std::vector<attr_d> catalogue()
 {
@@ -163,16 +167,16 @@ static void build(ruleset &rs)
 			attr_d const &a=rs.attrs[i];
 			if(a.type=="bool") r.add_boolean_property(a.tag,a.name);
 			else if(a.type=="int") r.add_integer_property(a.tag,a.name);
-			else if(a.type=="uri") r.add_uri_property(a.tag,a.name,alt_regex(a.sch));
+			else if(a.type=="uri") r.add_uri_property(a.tag,a.name,a.regex.empty()?alt_regex(a.sch):a.regex);
 			else if(a.type=="abs") r.add_property(a.tag,a.name,xss::rules::uri_validator(alt_regex(a.sch),true));
 			else if(a.type=="rel") r.add_property(a.tag,a.name,xss::rules::relative_uri_validator());
-			else r.add_property(a.tag,a.name,booster::regex(a.regex));
+			else r.add_property(a.tag,a.name,booster::regex(a.regex,a.flags));
 		}
 		rs.r=r;
 	}
 	for(size_t i=0;i<rs.attrs.size();i++) {
 		attr_d const &a=rs.attrs[i];
-		if(a.type=="uri") rs.vals[a.id]=xss::rules::uri_validator(alt_regex(a.sch),false);
+		if(a.type=="uri") rs.vals[a.id]=xss::rules::uri_validator(a.regex.empty()?alt_regex(a.sch):a.regex,false);
 		else if(a.type=="abs") rs.vals[a.id]=xss::rules::uri_validator(alt_regex(a.sch),true);
 		else if(a.type=="rel") rs.vals[a.id]=xss::rules::relative_uri_validator();
 		else if(a.type=="opq") rs.rxs[a.id]=booster::regex(a.regex);
@@ -186,6 +190,25 @@ static ruleset make_rules(int rid)
 	char const *encs[4]={"none","utf8","latin1","cp1252"};
 	rs.ents.push_back("lt"); rs.ents.push_back("gt"); rs.ents.push_back("amp"); rs.ents.push_back("quot");
 	std::vector<attr_d> cat=catalogue();
+	if(rid>=2000) {
+		// "engine" rule sets (rid = 2000 + xhtml + 2*enc): expression attributes whose expressions drive PCRE into its
+		// error results (match / recursion limit: nested quantifiers; bad UTF-8: expressions compiled with regex::utf8).
+		// Each is declared to TLC as the character set / alternatives / scheme list that CONTAINS its language.
+		int x=rid-2000;
+		rs.xhtml=x%2; rs.comments=false; rs.numeric=false; rs.enc=encs[(x/2)%4]; rs.repl=0; rs.via_json=false;
+		tag_d t; t.kind=3; t.name="a"; rs.tags.push_back(t); t.name="p"; rs.tags.push_back(t); t.name="b"; rs.tags.push_back(t);
+		attr_d a;
+		a=mk("p","class","cset",31); a.set=range('a','z')+range('A','Z')+range('0','9')+"_- "; a.regex="([a-zA-Z0-9_-]+ ?)*"; rs.attrs.push_back(a);
+		a=mk("p","id","cset",32); a.set=range('a','z'); a.regex="([a-z]+)*"; rs.attrs.push_back(a);
+		a=mk("b","k","cset",33); a.set="a"; a.min=1; a.regex="(a|aa)+"; rs.attrs.push_back(a);
+		a=mk("b","c","cset",34); a.set="xy"; a.min=1; a.regex="(x+x+)+y"; rs.attrs.push_back(a);
+		a=mk("a","title","cset",35); a.set=range('a','z')+"./:-"; a.min=1; a.regex="[a-z./:-]+"; a.flags=booster::regex::utf8; rs.attrs.push_back(a);
+		a=mk("a","name","alts",36); a.alts.push_back("top"); a.alts.push_back("bottom"); a.regex="(top|bottom)"; a.flags=booster::regex::utf8; rs.attrs.push_back(a);
+		a=mk("a","href","uri",37); a.sch.push_back("http"); a.sch.push_back("https"); a.regex="(h+)+ttps?"; rs.attrs.push_back(a);
+		a=mk("p","lang","cset",38); a.set=range('a','z')+range('0','9')+"_"; a.min=1; a.regex="(\\w+\\d*)+"; a.flags=booster::regex::utf8; rs.attrs.push_back(a);
+		build(rs);
+		return rs;
+	}
 	if(rid>=100) {
 		// enumeration rule sets: rid = 100 + ka + 4*kb + 16*xhtml + 32*comments + 64*numeric + 128*enc + 512*json
 		int x=rid-100;
@@ -232,12 +255,14 @@ static ruleset make_rules(int rid)
 
 // ------------------------------------------------------------------ events
 static int nev=0,last_rid=-1;
+static int inlang_flag=-1;          // -1: not stated; 0: the driver knows an attribute value of this input is NOT in its expression's language
 static void emit(ruleset &rs,std::string const &in)
 {
 	if(nev%400==0 || rs.rid!=last_rid) { tr.line(rs.reset_line); nev=0; last_rid=rs.rid; }
 	nev++;
 	char const *b=in.c_str(),*e=b+in.size();
 	vt::J j; j.s("e","F").bytes("in",in);
+	if(inlang_flag>=0) j.b("inlang",inlang_flag!=0);
 	std::string orr,oe;
 	try {
 		bool vi=xss::validate(b,e,rs.r);
@@ -678,6 +703,48 @@ int main(int argc,char **argv)
 					}
 				}
 			}
+		}
+		tr.close(); return 0;
+	}
+	if(mode=="eng") {
+		if(argc<7) { std::cerr<<"eng <level> 0 <shard> <nshards> <rid>..."<<std::endl; return 2; }
+		int level=atoi(argv[2]),shard=atoi(argv[4]),nshards=atoi(argv[5]);
+		long count=0;
+		for(int i=6;i<argc;i++) {
+			ruleset rs=make_rules(atoi(argv[i]));
+			std::vector<std::pair<std::string,int> > in;   // input, in-language?
+			int lens[3]={48,200,2000};
+			for(int li=0;li<3;li++) {
+				int n=lens[li];
+				if(level==0 && li==2) continue;          // quick: 48 and 200
+				std::string as(n,'a'),hs(n,'h'),xs(n,'x');
+				in.push_back(std::make_pair("<p class=\""+as+"!important;expression(alert(1))\">x</p>",0));
+				in.push_back(std::make_pair("<p class=\""+as+"\">x</p>",1));
+				in.push_back(std::make_pair("<a href=\""+hs+"q:alert(1)\">x</a>",0));
+				if(level==0 && li==1) continue;
+				in.push_back(std::make_pair("<p id=\""+as+"!\">x</p>",0));
+				in.push_back(std::make_pair("<b k=\""+as+"c\"/>",0));
+				in.push_back(std::make_pair("<b c=\""+xs+"z\"/>",0));
+				in.push_back(std::make_pair("<p lang=\""+as+"!\">x</p>",0));
+				in.push_back(std::make_pair("<b k=\""+as+"\"/>",1));
+			}
+			// invalid UTF-8 under expressions compiled with regex::utf8
+			char const *bad[]={"\xe9","\xff","\xc3","\xe2\x82","\xc0\xaf","\xed\xa0\x80"};
+			for(unsigned b=0;b<sizeof(bad)/sizeof(bad[0]);b++) {
+				if(level==0 && b>=3) break;
+				in.push_back(std::make_pair(std::string("<a title=\"javascript:alert(1)//")+bad[b]+"\">x</a>",0));
+				in.push_back(std::make_pair(std::string("<a title=\"abc")+bad[b]+"\">x</a>",0));
+				in.push_back(std::make_pair(std::string("<a name='top")+bad[b]+"'>x</a>",0));
+				in.push_back(std::make_pair(std::string("<a name='")+bad[b]+"onclick'>x</a>",0));
+				in.push_back(std::make_pair(std::string("<p lang=\"a")+bad[b]+"(\">x</p>",0));
+			}
+			in.push_back(std::make_pair("<a title=\"abc\" name='top'>x</a>",1));
+			for(size_t k=0;k<in.size();k++) {
+				if(count++%nshards!=shard) continue;
+				inlang_flag=in[k].second;
+				emit(rs,in[k].first);
+			}
+			inlang_flag=-1;
 		}
 		tr.close(); return 0;
 	}
